@@ -234,6 +234,12 @@ def run_case(case):
             if any(c["f"] == "PPMD" for c in s["chain"]) and K.pyppmd_faulty(s["chain"], [G.materialise(m["content"]) for m in s["members"]]):
                 viol = [{"key": "codec-library/pyppmd-roundtrip", "what": "pyppmd alone cannot round-trip this input (symptom: %s)" % viol[0]["what"][:150]}]
                 break
+    if viol and any(c["f"] == "DEFLATE64" for s in case["sessions"] for c in s["chain"]):
+        for s in case["sessions"]:
+            pieces = [b_ for _, k_, b_ in model if k_ in ("file", "symlink") and b_] if len(case["sessions"]) == 1 else [G.materialise(m["content"]) for m in s["members"]]
+            if K.inflate64_faulty(s["chain"], pieces):
+                viol = [{"key": "codec-library/inflate64-roundtrip", "what": "inflate64 alone (Deflater fed these %d pieces, then Inflater) does not give the input back (symptom: %s)" % (len(pieces), viol[0]["what"][:150])}]
+                break
     if viol:
         seen = {}
         for v in viol:
